@@ -1,6 +1,6 @@
 SPECIFICATION Spec
 CONSTANTS MaxSize = 3  Rich = FALSE  TowerDepth = 6  ProtLen = 3  RawLen = 5
-          MaxESize = 4  ETower = 9  RawELen = 5  BigEnv = TRUE  Emit = TRUE
+          MaxESize = 4  ETower = 9  RawELen = 4  BigEnv = TRUE  Emit = TRUE
 INVARIANT TypeOK
 INVARIANT NounsetOnlyAddsErrors
 INVARIANT DqTransparent
